@@ -54,6 +54,9 @@ type SeedScenario struct {
 	// that takes 500us: more chunks of one session are outstanding than a sender queue holds while the other
 	// sender is idle
 	Slow bool `json:"slow"`
+	// Overlap (with Slow): a request that resumes the session of the step just before it is handed over without
+	// waiting for that step's responses, so chunks of two requests of one session are in flight together
+	Overlap bool `json:"overlap"`
 }
 
 // session ranges: Start/Stop of session id s (index s-1); the same for every peer
@@ -80,7 +83,7 @@ func RunSeederScenario(sc *SeedScenario, scen int, log *scenLog, stats map[strin
 	}
 	cf := rec{"start": seedStart, "stop": seedStop, "num": int(num), "size": int(size), "isize": seedItemSize,
 		"pendlimit": pendLimit, "oneresp": 1 + (maxItems+1)*seedItemSize}
-	log.emit(rec{"op": "reset", "scen": scen, "cf": cf, "lim": sc.Lim, "tight": sc.Tight, "slow": sc.Slow, "script": sc.Script})
+	log.emit(rec{"op": "reset", "scen": scen, "cf": cf, "lim": sc.Lim, "tight": sc.Tight, "slow": sc.Slow, "overlap": sc.Overlap, "script": sc.Script})
 	senderTasks, chunkFactor := 64, 1
 	if sc.Slow {
 		senderTasks, chunkFactor = 1, 2
@@ -173,7 +176,7 @@ func RunSeederScenario(sc *SeedScenario, scen int, log *scenLog, stats map[strin
 		return nil
 	}
 	held := map[string]map[int]bool{"p": {}, "q": {}}
-	for _, st := range sc.Script {
+	for si, st := range sc.Script {
 		switch st.Op {
 		case "request":
 			chunks := st.Chunks * chunkFactor
@@ -196,6 +199,14 @@ func RunSeederScenario(sc *SeedScenario, scen int, log *scenLog, stats map[strin
 			stats["unregister"]++
 			smu.Unlock()
 			s.UnregisterPeer(st.P)
+		}
+		if nx := si + 1; sc.Overlap && st.Op == "request" && nx < len(sc.Script) && sc.Script[nx].Op == "request" &&
+			sc.Script[nx].P == st.P && sc.Script[nx].Sid == st.Sid {
+			// the next step resumes this session: do not wait, its chunks are queued behind (and must not overtake) these
+			smu.Lock()
+			stats["overlapping_resume"]++
+			smu.Unlock()
+			continue
 		}
 		if err := quiet(); err != nil {
 			return err
@@ -240,19 +251,22 @@ func CmdSeederRun(args []string) int {
 		if err := json.Unmarshal(raw, &s); err != nil {
 			return fmt.Errorf("bad scenario: %v", err)
 		}
-		type variant struct{ tight, slow bool }
-		variants := []variant{{false, false}}
+		type variant struct{ tight, slow, overlap bool }
+		variants := []variant{{false, false, false}}
 		if tightEvery > 0 && idx%tightEvery == 0 {
-			variants = append(variants, variant{true, false})
+			variants = append(variants, variant{true, false, false})
 		}
 		if tightEvery > 0 && idx%tightEvery == tightEvery/2 {
-			variants = append(variants, variant{false, true})
+			variants = append(variants, variant{false, true, false})
+		}
+		if tightEvery > 0 && idx%tightEvery == tightEvery/4 {
+			variants = append(variants, variant{false, true, true})
 		}
 		if tightEvery < 0 { // replay: as recorded
-			variants = []variant{{s.Tight, s.Slow}}
+			variants = []variant{{s.Tight, s.Slow, s.Overlap}}
 		}
 		for _, v := range variants {
-			s.Tight, s.Slow = v.tight, v.slow
+			s.Tight, s.Slow, s.Overlap = v.tight, v.slow, v.overlap
 			log := &scenLog{}
 			st := map[string]int{}
 			if err := RunSeederScenario(&s, idx, log, st); err != nil {
